@@ -229,3 +229,55 @@ void h_C01_fill_yly_ycw(void)
 	}
 	SENTINEL("fill_yly_ycw");
 }
+
+/* BYWEEKNO=W;BYDAY=XX in a YEARLY rule: the weekday XX of ISO week W */
+#if !defined REPLAY
+static int h_next63_val;
+#endif
+void h_C01_fill_yly_ywd(void)
+{
+	IN_RANGE(unsigned, y, 1902, 2098);
+	IN_RANGE(int, wk, -53, 53);
+	IN_RANGE(unsigned, wd, 1, 7);
+	ASSUME(wk != 0);
+	static bitint383_t cand[1];
+	static bitint447_t dow[1];
+	memset(cand, 0, sizeof(cand));
+	memset(dow, 0, sizeof(dow));
+	dow->neg[0] = (int)wd;	/* plain weekday, no ordinal */
+	dow->pos[0] = 2U;
+	/* one week number in the real 63-bit container */
+	bitint63_t woy = ass_bi63((bitint63_t){0U, 0}, wk);
+	const int nw = S_ISOWEEKS(y);
+	const int w = wk > 0 ? wk : nw + 1 + wk;
+	const int want = S_W1MON(y) + 7 * (w - 1) + ((int)wd - 1);	/* ordinal day, may lie outside the year */
+	const int exists = wk <= nw && -wk <= nw;
+	const int inside = exists && 1 <= want && want <= S_YDAYS(y);
+#if defined REGION_YWD_OUTSIDE_YEAR
+	ASSUME(exists && !inside);
+#else
+	ASSUME(!exists || inside);
+#endif
+	fill_yly_ywd(cand, y, woy, dow);
+	if (!exists) {
+		ASSERT(!BS_383(cand) && CNT_383(cand) == 0U, "BYWEEKNO=53 / -53 selects nothing in a year with 52 ISO weeks");
+#if !defined REGION_YWD_OUTSIDE_YEAR
+		SENTINEL("fill_yly_ywd no such week");
+#endif
+	} else if (inside) {
+		ASSERT(!BS_383(cand) && CNT_383(cand) == 1U, "BYWEEKNO=W;BYDAY=XX selects one day");
+		struct md_s r = unpack_cand((unsigned)cand->neg[0]);
+		ASSERT(S_VALID_DATE(y, r.m, r.d) && S_YDAY(y, r.m, r.d) == want && S_WDAY(y, r.m, r.d) == (int)wd, "BYWEEKNO=W;BYDAY=XX selects weekday XX of ISO week W (counted from the end for negative W)");
+#if !defined REGION_YWD_OUTSIDE_YEAR
+		SENTINEL("fill_yly_ywd inside");
+#endif
+	} else {
+		/* region of known finding KF-C01-ywd-outside-year: the day belongs to a
+		 * neighbouring calendar year; filing it under year y puts it a year off */
+		ASSERT(!BS_383(cand) && CNT_383(cand) == 0U, "a day of week W that lies in a neighbouring calendar year is not filed under this year");
+#if defined REGION_YWD_OUTSIDE_YEAR
+		SENTINEL("fill_yly_ywd outside");
+#endif
+	}
+	SENTINEL("fill_yly_ywd");
+}
